@@ -6,10 +6,10 @@
       (`Generated.C20.cliActions / tomlActions`, converted by `ofRaw`), so the model follows the code
       when an option is added, renamed, re-typed or re-grouped;
     * `_validate_toml_config`  (`validateToml`): prune unknown keys, then type-check in dict order by
-      `TOML_ARGUMENT_TYPE_MAP` with Python's `bool <: int` (`isinstance(False, int)` is `True`);
+      `TOML_ARGUMENT_TYPE_MAP`; since fix 0abb989 `int` is `isinstance(v, int) and not
+      isinstance(v, bool)` (tied to the live `is_valid` by `Generated.C20.isValidProbes`);
     * `_translate_toml_conf_to_sys_args` (`translate`): booleans → bare flag or nothing (checked
-      FIRST, so a bool that passed the int check becomes a bare `--threshold`/nothing), str/int →
-      flag + value, lists → repeated flag/value pairs;
+      first), str/int → flag + value, lists → repeated flag/value pairs;
     * `argparse.ArgumentParser.parse_args(args, namespace)` (`parse`) for the actions rattr uses
       (`store` with type/choices, `store_true`, `append` copying the list already in the namespace,
       `version`), positionals, the `required` check, `unrecognized arguments`, mutually exclusive
@@ -17,8 +17,9 @@
       the namespace;
     * `_get_toml_override` (`-c` file only if it is a file), `find_pyproject_toml`/`find_project_root`
       (`findPyproject`), `parse_project_toml` (`selectFile`), the two-pass composition and
-      `_toml_error` (which with `exit_on_error=True` calls `error.fatal` BEFORE the `Config`
-      singleton exists) in `parseArguments`.
+      `_toml_error` (since fix f47ae20: with `exit_on_error=True` it prints
+      `fatal: error parsing project toml: <exc>` and `sys.exit(1)`; otherwise re-raises) in
+      `parseArguments`.
 
   Fragment (what is trusted rather than modelled): argparse's tokeniser on non-canonical tokens —
   abbreviations (`--thresh`), `=`-joined values, clumped short flags (`-HT`), `--`, dash-words with
@@ -281,14 +282,30 @@ def Scalar.isStr : Scalar → Bool
   | .str _ => true
   | _ => false
 
-/-- `TomlArgumentType.is_valid`; `isinstance(value, int)` accepts `bool`. -/
+/-- `TomlArgumentType.is_valid`; `int` is `isinstance(value, int) and not isinstance(value, bool)`. -/
 def TomlType.isValid : TomlType → TVal → Bool
   | .flag, .sc (.bool _) => true
   | .int, .sc (.int _) => true
-  | .int, .sc (.bool _) => true
   | .string, .sc (.str _) => true
   | .listOfStrings, .list l => l.all Scalar.isStr
   | _, _ => false
+
+/-- The probe values of `Generated.C20.isValidProbes`, by name. -/
+def probeVal (name : String) : Option TVal :=
+  if name = "True" then some (.sc (.bool true))
+  else if name = "False" then some (.sc (.bool false))
+  else if name = "0" then some (.sc (.int 0))
+  else if name = "3" then some (.sc (.int 3))
+  else if name = "-5" then some (.sc (.int (-5)))
+  else if name = "'s'" then some (.sc (.str (.word (Rattr.str "s"))))
+  else if name = "''" then some (.sc (.str (.word [])))
+  else if name = "1.5" then some (.sc .other)
+  else if name = "[]" then some (.list [])
+  else if name = "['a']" then some (.list [.str (.word (Rattr.str "a"))])
+  else if name = "['a', 1]" then some (.list [.str (.word (Rattr.str "a")), .int 1])
+  else if name = "[True]" then some (.list [.bool true])
+  else if name = "{}" then some .table
+  else none
 
 inductive TomlFail where
   | decode                       -- TOMLDecodeError
@@ -387,11 +404,11 @@ inductive Outcome where
   | ok (ns : Namespace)
   | cliError (e : ArgErr)                 -- ArgumentError raised / usage + exit 2
   | tomlError (e : TomlFail)              -- exit_on_error=False: the exception is re-raised
-  | tomlFatalBeforeConfig (e : TomlFail)  -- exit_on_error=True: `error.fatal` → `Config()` → TypeError
+  | tomlFatal (e : TomlFail)              -- exit_on_error=True: "fatal: error parsing project toml: …", exit 1
   deriving DecidableEq, Repr
 
 def tomlErr (exitOnError : Bool) (e : TomlFail) : Outcome :=
-  if exitOnError then .tomlFatalBeforeConfig e else .tomlError e
+  if exitOnError then .tomlFatal e else .tomlError e
 
 /-- `parse_arguments(sys_args=argv, project_toml_conf=inputConf, exit_on_error=…)`. -/
 def parseArguments (w : World) (inputConf : Option Toml) (argv : List Text) (exitOnError : Bool) : Outcome :=
